@@ -330,7 +330,7 @@ pub fn oracle(c: &Case) -> Verdict {
 /// driver's own queue. Only the keep-alive can notice.
 #[derive(Debug, Clone, Serialize, Deserialize)]
 pub struct DeafCase {
-    pub requests: u8,
+    pub requests: u16,
     /// size of each request, KiB (padding in the statement text)
     pub kib_each: u16,
     pub idempotent: bool,
@@ -411,12 +411,14 @@ pub fn deaf_oracle(c: &DeafCase) -> Verdict {
     }
     vassert!(follow_ok, "session_not_working", "no follow-up request succeeded within {D:?}");
     let total_kib = n * c.kib_each as usize;
-    Ok(CaseInfo::new(total_kib >= 24 * 1024).class_if(total_kib >= 24 * 1024, "backlog_beyond_socket_buffers").class_if(failed > 0, "some_failed").class_if(c.idempotent, "idempotent"))
+    Ok(CaseInfo::new(total_kib >= 8 * 1024).class_if(total_kib >= 8 * 1024, "backlog_beyond_socket_buffers").class_if(c.kib_each < 8, "requests_below_write_buffer_size").class_if(failed > 0, "some_failed").class_if(c.idempotent, "idempotent"))
 }
 
 pub fn deaf_case() -> BoxedStrategy<DeafCase> {
-    (prop_oneof![1 => 1u8..8, 3 => 24u8..64], prop_oneof![1 => 1u16..64, 3 => 512u16..=1024], any::<bool>(), 0u8..3)
-        .prop_map(|(requests, kib_each, idempotent, warmup)| DeafCase { requests, kib_each, idempotent, warmup })
+    // three shapes: a few small requests (nothing backs up), tens of requests of about a megabyte (each bypasses the
+    // driver's 8 KiB write buffer), thousands of requests below 8 KiB (they pass through that buffer)
+    (prop_oneof![1 => (1u16..8, 1u16..64), 3 => (24u16..64, 512u16..=1024), 3 => (2000u16..5000, 2u16..8)], any::<bool>(), 0u8..3)
+        .prop_map(|((requests, kib_each), idempotent, warmup)| DeafCase { requests, kib_each, idempotent, warmup })
         .boxed()
 }
 
@@ -614,7 +616,7 @@ pub fn case() -> BoxedStrategy<Case> {
 }
 
 pub fn run(ctx: &Ctx, rep: &mut Report) {
-    rep.rule = "Cases: 1..8 requests in flight (query / execute / batch, idempotent or not) on a 2-node mock cluster with one connection per node; the node holding most of them answers j of them completely and then fails: FIN or RST after writing a prefix of the next response frame (offset anywhere in the frame, biased to the 9 header bytes, 0 = between frames), a garbage header, a header with version 0x03/0x85/0x04/0x00, a complete frame on a stream nobody waits for, or a silent stall with keep-alive 100 ms / 200 ms; the fault fires after all requests arrived or after the first 1..3. Oracle: every caller completes within 10 s; a caller that gets rows gets its own marker; requests whose response was completely written succeed; a non-idempotent request outstanding on the dead connection fails and no second frame for it appears anywhere; an idempotent one may succeed only through a second frame; a follow-up request succeeds and the node is reconnected within 10 s. submit_race: 4..16 callers submit requests in a loop (session without client-side timeout) while all 1..8 connections of the node are torn down again and again (FIN / RST): every caller must come back. deaf_peer: node 0 stops reading on all its open connections (sockets stay open) and 1..63 requests of 1..1024 KiB each are launched, so that up to 60 MiB back up in the socket buffers and the driver's queue; every caller must complete within 10 s and the session must serve a follow-up request. saturated: the same with all 32 768 stream ids of a connection in flight (so that the driver's own keep-alive cannot obtain a stream id) under FIN / RST / silent stall. Non-trivial = >= 2 requests in flight on the dying connection and the cut strictly inside a frame.".into();
+    rep.rule = "Cases: 1..8 requests in flight (query / execute / batch, idempotent or not) on a 2-node mock cluster with one connection per node; the node holding most of them answers j of them completely and then fails: FIN or RST after writing a prefix of the next response frame (offset anywhere in the frame, biased to the 9 header bytes, 0 = between frames), a garbage header, a header with version 0x03/0x85/0x04/0x00, a complete frame on a stream nobody waits for, or a silent stall with keep-alive 100 ms / 200 ms; the fault fires after all requests arrived or after the first 1..3. Oracle: every caller completes within 10 s; a caller that gets rows gets its own marker; requests whose response was completely written succeed; a non-idempotent request outstanding on the dead connection fails and no second frame for it appears anywhere; an idempotent one may succeed only through a second frame; a follow-up request succeeds and the node is reconnected within 10 s. submit_race: 4..16 callers submit requests in a loop (session without client-side timeout) while all 1..8 connections of the node are torn down again and again (FIN / RST): every caller must come back. deaf_peer: node 0 stops reading on all its open connections (sockets stay open) and either up to 63 requests of up to 1 MiB or 2000..5000 requests of 2..7 KiB (below the driver's 8 KiB write buffer) are launched, so that megabytes back up in the socket buffers and the driver's queue; every caller must complete within 10 s and the session must serve a follow-up request. saturated: the same with all 32 768 stream ids of a connection in flight (so that the driver's own keep-alive cannot obtain a stream id) under FIN / RST / silent stall. Non-trivial = >= 2 requests in flight on the dying connection and the cut strictly inside a frame.".into();
     rep.trusted_base = vec!["mock cluster (vkit::mock, reference codec), real loopback TCP".into()];
     rep.assumptions = vec![
         "liveness is decided as completion within 10 s (normal: milliseconds; keep-alive case: < 1 s)".into(),
